@@ -1,12 +1,46 @@
 /-
   C01 — wire encoder/decoder round trip for every IMAP data value.
-  Property theorems only; helper lemmas live in GoImap/Lemmas/Wire*.lean.
+  Property theorems only; definitions used in the statements (`strBytes`, `strLits`, `mboxBytes`,
+  `valBytes`, `Value.OK`, `Value.fuel`) and helper lemmas live in GoImap/Lemmas/Wire*.lean.
+
+  Everything is stated for every configuration `cfg = (side, quotedUTF8, literalMinus, literalPlus)`
+  — all eight modes, both directions — and for the decoder of the peer side `cfg.side.peer`.
+  A decoder state is ⟨unread input, dec.err, literal-hook calls⟩; "consumes exactly the bytes written"
+  is the unread input being the `rest` that was appended, "no error" is `dec.err` staying `none`.
+
+  Proved (all at full strength, nothing partial):
+    quoted_rt                      Quoted → Quoted, any bytes, any rest
+    string_rt, string_sync         String → ExpectAString / ExpectString / String, any byte string below
+                                   2^63 bytes, any rest; the encoder waits exactly for a synchronising
+                                   literal, right after its header; the peer's hook sees size and nonSync
+    number_rt, number64_rt, modseq_rt, number64_refuse
+    flag_rt, flag_star_rt, attr_rt, flag_refuse, attr_refuse   (refusal ⇔ not an RFC 9051 flag, 7-bit)
+    canonical_table, canon_flag_fold, canon_flag_id            the canonicalisation touches only the case of
+                                   well-known flags / attributes
+    mailbox_rt                     valid UTF-8 names, INBOX folding (uses C16 dec_enc + UTF-8 layer)
+    numset_rt, searchres_rt, numset_refuse                     (uses C15.parse_print)
+    list_rt, list_cap, list_refuse value trees of strings / numbers / lists; the depth cap 1000 counts
+                                   non-empty lists only
+    legacy_number64_counterexample, legacy_flag_counterexample  the two repaired defects
+  Validated by the oracle only (not theorems): the model's output is accepted by the strict RFC 9051
+  string reader of Spec/Wire.lean and obeys RFC 7888's literal rules (`framingAllowed`); flags with
+  bytes ≥ 0x80 (Unicode `strings.ToLower` in Go) are outside the model.
+  Side conditions on `rest` are the grammar's separators: a number is followed by a non-digit, an
+  atom-like token (flag, INBOX, sequence set) by a byte that cannot continue it.
 -/
 import GoImap.Model.Wire
 import GoImap.Spec.Wire
 import GoImap.Lemmas.Wire
+import GoImap.Lemmas.WireString
+import GoImap.Lemmas.WireFlag
+import GoImap.Lemmas.WireNumSet
+import GoImap.Lemmas.WireMailbox
+import GoImap.Lemmas.WireList
+import GoImap.Props.C15
 namespace GoImap.C01
 open GoImap.Wire GoImap.WireSpec
+
+/-! ### strings -/
 
 /-- every byte string survives `Encoder.Quoted` → `Decoder.Quoted`, whatever follows it, and
     exactly its bytes are consumed -/
@@ -18,13 +52,276 @@ theorem quoted_rt (s rest : Wire.Bytes) (e : Option Err) (l : List (Nat × Bool)
 example : decQuoted ⟨encQuoted [34, 92, 0, 13, 10, 255] ++ [32, 120], none, []⟩ =
     (true, [34, 92, 0, 13, 10, 255], ⟨[32, 120], none, []⟩) := quoted_rt _ _ _ _
 
+/-- `Encoder.String` never refuses, and the peer's `ExpectAString`, `ExpectString` and `String`
+    return the string, leave exactly `rest`, set no error, and report the literal (if one was used)
+    with its size and whether it was non-synchronising — for every mode and direction -/
+theorem string_rt (cfg : Cfg) (s rest : Wire.Bytes) (hlen : s.length < lim63) :
+    (encString cfg s {}).err = false ∧
+    expectAString cfg.side.peer ⟨(encString cfg s {}).out ++ rest, none, []⟩ =
+      (true, s, ⟨rest, none, strLits cfg s⟩) ∧
+    expectString cfg.side.peer ⟨(encString cfg s {}).out ++ rest, none, []⟩ =
+      (true, s, ⟨rest, none, strLits cfg s⟩) ∧
+    decString cfg.side.peer ⟨(encString cfg s {}).out ++ rest, none, []⟩ =
+      (true, s, ⟨rest, none, strLits cfg s⟩) := by
+  obtain ⟨h1, h2, _⟩ := encString_ok cfg s {} rfl
+  have hout : (encString cfg s {}).out = Wire.strBytes cfg s := by simpa using h2
+  rw [hout]
+  exact ⟨h1, by simpa using expectAString_strBytes cfg s rest hlen none [],
+    by simpa using expectString_strBytes cfg s rest hlen none [],
+    by simpa using decString_strBytes cfg s rest hlen none []⟩
+
+/-- literal synchronisation: the encoder stops and waits exactly when the string needs a literal
+    that the negotiated mode does not allow to be non-synchronising (a client without LITERAL+,
+    and without LITERAL- or above 4096 bytes), the wait point is right after the literal header,
+    and the peer is told "non-synchronising" exactly for a client literal sent without waiting -/
+theorem string_sync (cfg : Cfg) (s : Wire.Bytes) :
+    (encString cfg s {}).waits =
+      (if !validQuoted cfg s && needSync cfg s.length then [(litHeader cfg s.length true).length] else []) ∧
+    (needSync cfg s.length = true ↔
+      cfg.side = .client ∧ cfg.literalPlus = false ∧ (cfg.literalMinus = false ∨ s.length > 4096)) ∧
+    strLits cfg s = (if validQuoted cfg s then []
+      else [(s.length, decide (cfg.side = .client) && !needSync cfg s.length)]) := by
+  refine ⟨by simpa using (encString_ok cfg s {} rfl).2.2, ?_, rfl⟩
+  simp only [needSync, Bool.and_eq_true, Bool.or_eq_true, decide_eq_true_eq, Bool.not_eq_true',
+    and_assoc]
+  constructor
+  · rintro ⟨h1, h2, h3⟩; exact ⟨h1, h3, h2⟩
+  · rintro ⟨h1, h2, h3⟩; exact ⟨h1, h3, h2⟩
+
+-- a 3-byte string with a NUL: literal; client without LITERAL±: synchronising, wait after "{3}\r\n"
+example : (encString ⟨.client, false, false, false⟩ [97, 0, 98] {}).waits = [5] ∧
+    (encString ⟨.client, false, false, false⟩ [97, 0, 98] {}).out = [123, 51, 125, 13, 10, 97, 0, 98] ∧
+    (encString ⟨.client, false, true, false⟩ [97, 0, 98] {}).out = [123, 51, 43, 125, 13, 10, 97, 0, 98] ∧
+    (encString ⟨.server, false, false, false⟩ [97, 0, 98] {}).out = [123, 51, 125, 13, 10, 97, 0, 98] ∧
+    (encString ⟨.client, true, false, false⟩ [97, 233] {}).out = [34, 97, 233, 34] := by decide
+
+/-! ### numbers -/
+
+/-- `Encoder.Number` (uint32) → `ExpectNumber` -/
+theorem number_rt (v : Nat) (hv : v < 4294967296) (c : Nat) (r : Wire.Bytes) (hc : isDigit c = false) :
+    (encNumber v {}).err = false ∧
+    expectNumber ⟨(encNumber v {}).out ++ c :: r, none, []⟩ = (true, v, ⟨c :: r, none, []⟩) := by
+  refine ⟨rfl, ?_⟩
+  have : (encNumber v {}).out = digits v := by simp [encNumber, Enc.write]
+  rw [this]
+  exact expectNumberLim_digits lim32 v hv c r hc none []
+
+/-- `Encoder.Number64` (int64 ≥ 0) → `ExpectNumber64` -/
+theorem number64_rt (v : Int) (h0 : 0 ≤ v) (hv : v < 9223372036854775808) (c : Nat) (r : Wire.Bytes)
+    (hc : isDigit c = false) :
+    (encNumber64 v {}).err = false ∧
+    expectNumber64 ⟨(encNumber64 v {}).out ++ c :: r, none, []⟩ =
+      (true, v.natAbs, ⟨c :: r, none, []⟩) ∧ Int.ofNat v.natAbs = v := by
+  have hn : ¬ v < 0 := by omega
+  have hout : (encNumber64 v {}).out = digits v.natAbs := by
+    simp [encNumber64, hn, Enc.write, intDigits_nonneg v h0]
+  refine ⟨by simp [encNumber64, hn, Enc.write], ?_, Int.natAbs_of_nonneg h0⟩
+  rw [hout]
+  exact expectNumberLim_digits lim63 v.natAbs (by unfold lim63; omega) c r hc none []
+
+/-- `Encoder.ModSeq` (uint64) → `ExpectModSeq` -/
+theorem modseq_rt (v : Nat) (hv : v < 18446744073709551616) (c : Nat) (r : Wire.Bytes)
+    (hc : isDigit c = false) :
+    expectModSeq ⟨(encNumber v {}).out ++ c :: r, none, []⟩ = (true, v, ⟨c :: r, none, []⟩) := by
+  have : (encNumber v {}).out = digits v := by simp [encNumber, Enc.write]
+  rw [this]
+  exact expectNumberLim_digits lim64 v hv c r hc none []
+
 /-- a negative `Number64` is refused -/
 theorem number64_refuse (v : Int) (hv : v < 0) (e : Enc) : (encNumber64 v e).err = true := by
   simp [encNumber64, hv, Enc.setErr]
 
+example : expectNumber64 ⟨(encNumber64 9223372036854775807 {}).out ++ [13, 10], none, []⟩ =
+    (true, 9223372036854775807, ⟨[13, 10], none, []⟩) :=
+  (number64_rt 9223372036854775807 (by decide) (by decide) 13 [10] (by decide)).2.1
+
+/-! ### flags and mailbox attributes -/
+
+/-- an accepted flag other than `\*` is read back by `ExpectFlag` as its canonical form (the
+    well-known flags case-normalised, everything else unchanged) -/
+theorem flag_rt (f : Wire.Bytes) (hne : f ≠ [92, 42]) (hacc : (encFlag f {}).err = false)
+    (c : Nat) (r : Wire.Bytes) (hc : isAtomChar c = false) :
+    expectFlag ⟨(encFlag f {}).out ++ c :: r, none, []⟩ = (true, canonicalFlag f, ⟨c :: r, none, []⟩) := by
+  have hv : isValidFlag f = true := by
+    cases h : isValidFlag f with
+    | true => rfl
+    | false => simp [encFlag, hne, h, Enc.setErr] at hacc
+  have hout : (encFlag f {}).out = f := by simp [encFlag, hv, Enc.write]
+  rw [hout]
+  exact expectFlag_valid f hv c r hc none []
+
+/-- `\*` (flag-perm) -/
+theorem flag_star_rt (rest : Wire.Bytes) :
+    (encFlag [92, 42] {}).err = false ∧
+    expectFlag ⟨(encFlag [92, 42] {}).out ++ rest, none, []⟩ = (true, [92, 42], ⟨rest, none, []⟩) := by
+  refine ⟨by decide, ?_⟩
+  have : (encFlag [92, 42] {}).out = [92, 42] := by decide
+  rw [this]
+  exact expectFlag_star rest none []
+
+/-- an accepted mailbox attribute is read back by `ExpectMailboxAttr` as its canonical form -/
+theorem attr_rt (f : Wire.Bytes) (hacc : (encAttr f {}).err = false)
+    (c : Nat) (r : Wire.Bytes) (hc : isAtomChar c = false) :
+    expectMailboxAttr ⟨(encAttr f {}).out ++ c :: r, none, []⟩ =
+      (true, canonicalMailboxAttr (canonicalFlag f), ⟨c :: r, none, []⟩) := by
+  have hv : isValidFlag f = true := by
+    cases h : isValidFlag f with
+    | true => rfl
+    | false => simp [encAttr, h, Enc.setErr] at hacc
+  have hh : ¬ (f.head? ≠ some 92) := by
+    intro hh; simp [encAttr, hh, Enc.setErr] at hacc
+  have hout : (encAttr f {}).out = f := by simp [encAttr, hv, hh, Enc.write]
+  rw [hout]
+  unfold expectMailboxAttr
+  rw [expectFlag_valid f hv c r hc none []]
+
+/-- the canonical form differs from the flag at most in the case of ASCII letters, and is a fixed
+    point on the canonical spellings -/
+theorem canonical_table :
+    (∀ t ∈ wellKnownFlags, canonicalFlag t = t ∧ canonicalFlag (lowerAscii t) = t) ∧
+    (∀ t ∈ wellKnownAttrs, canonicalMailboxAttr t = t ∧ canonicalMailboxAttr (lowerAscii t) = t) := by
+  decide +kernel
+
+/-- canonicalisation changes at most the case of ASCII letters … -/
+theorem canon_flag_fold (f : Wire.Bytes) :
+    lowerAscii (canonicalFlag f) = lowerAscii f ∧
+    lowerAscii (canonicalMailboxAttr f) = lowerAscii f :=
+  ⟨canonIn_fold wellKnownFlags f, canonIn_fold wellKnownAttrs f⟩
+
+/-- … and leaves everything that is not a well-known flag / attribute (in any case mix) alone -/
+theorem canon_flag_id (f : Wire.Bytes) :
+    ((∀ t ∈ wellKnownFlags, lowerAscii t ≠ lowerAscii f) → canonicalFlag f = f) ∧
+    ((∀ t ∈ wellKnownAttrs, lowerAscii t ≠ lowerAscii f) → canonicalMailboxAttr f = f) :=
+  ⟨canonIn_id wellKnownFlags f, canonIn_id wellKnownAttrs f⟩
+
+/-- refused ⇔ not representable, for 7-bit flags, judged against RFC 9051's `flag-perm` -/
+theorem flag_refuse (f : Wire.Bytes) (h7 : sevenBit f = true) (e : Enc) (he : e.err = false) :
+    (encFlag f e).err = true ↔ ValidFlag f = false := by
+  unfold encFlag ValidFlag
+  rw [isValidFlag_eq_rfc f h7]
+  by_cases hs : f = [92, 42]
+  · subst hs; simp [Enc.write, he]
+  · cases hv : (isAtom f || isBackslashAtom f) with
+    | true =>
+      simp only [Bool.or_eq_true] at hv
+      rcases hv with hv | hv <;> simp [hs, hv, Enc.write, he]
+    | false =>
+      simp only [Bool.or_eq_false_iff] at hv
+      simp [hs, hv.1, hv.2, Enc.setErr]
+
+/-- refused ⇔ not representable, for 7-bit attributes, judged against RFC 9051's `"\" atom` -/
+theorem attr_refuse (f : Wire.Bytes) (h7 : sevenBit f = true) (e : Enc) (he : e.err = false) :
+    (encAttr f e).err = true ↔ ValidAttr f = false := by
+  unfold encAttr ValidAttr
+  rw [isValidFlag_eq_rfc f h7]
+  cases hb : isBackslashAtom f with
+  | true =>
+    have := isBackslashAtom_head f hb
+    simp [this, Enc.write, he]
+  | false =>
+    by_cases hh : f.head? = some 92
+    · cases ha : isAtom f with
+      | true => exact absurd hh (isAtom_head f ha)
+      | false => simp [hh, Enc.setErr]
+    · simp [hh, Enc.setErr]
+
+example : (encFlag [92, 83, 69, 69, 78] {}).err = false ∧
+    expectFlag ⟨[92, 83, 69, 69, 78] ++ [41], none, []⟩ = (true, [92, 83, 101, 101, 110], ⟨[41], none, []⟩) := by
+  decide
+
+/-! ### mailbox names -/
+
+/-- a valid-UTF-8 mailbox name (`cps` = its scalar values) is never refused and is read back by the
+    peer's `ExpectMailbox` as itself — as `INBOX` when it is INBOX in any case mix — in every mode -/
+theorem mailbox_rt (cfg : Cfg) (name : Wire.Bytes) (cps : List Nat) (hutf8 : Utf7.utf8dec name = some cps)
+    (hlen : (Utf7.encode cps).length < lim63) (c : Nat) (r : Wire.Bytes) (hc : isAtomChar c = false) :
+    ∃ e1, encMailbox cfg name {} = some e1 ∧ e1.err = false ∧
+      expectMailbox cfg.side.peer ⟨e1.out ++ c :: r, none, []⟩ =
+        (true, if equalFoldInbox name then inboxBytes else name, ⟨c :: r, none, mboxLits cfg name cps⟩) := by
+  obtain ⟨e1, h1, h2, h3⟩ := encMailbox_ok cfg name cps hutf8 {} rfl
+  refine ⟨e1, h1, h2, ?_⟩
+  have : e1.out = mboxBytes cfg name cps := by simpa using h3
+  rw [this]
+  simpa using expectMailbox_mboxBytes cfg name cps hutf8 hlen c r hc none []
+
+-- "Entwürfe" → "Entw&APw-rfe" and back; "inbox" → INBOX
+example : (encMailbox ⟨.client, false, false, false⟩ [69, 110, 116, 119, 195, 188, 114, 102, 101] {}).map Enc.out =
+    some [34, 69, 110, 116, 119, 38, 65, 80, 119, 45, 114, 102, 101, 34] := by decide
+example : encMailbox ⟨.server, true, false, false⟩ [105, 110, 98, 111, 120] {} =
+    some ⟨[73, 78, 66, 79, 88], [], false⟩ := by decide
+
+/-! ### number sets -/
+
+/-- a non-empty canonical number set is read back by `ExpectNumSet` as itself -/
+theorem numset_rt (s : NumSet.Set) (hcanon : NumSetSpec.canonical s = true) (hne : s ≠ [])
+    (c : Nat) (r : Wire.Bytes) (hc : isNumSetChar c = false) :
+    (encNumSet (.set s) {}).err = false ∧
+    expectNumSet ⟨(encNumSet (.set s) {}).out ++ c :: r, none, []⟩ = (true, .set s, ⟨c :: r, none, []⟩) := by
+  have hparse := GoImap.C15.parse_print s hcanon hne
+  have htext : (NumSetV.set s).text ≠ [] := by
+    intro h
+    exact toChars_ne_nil s hne (List.map_eq_nil_iff.1 h)
+  have hout : (encNumSet (.set s) {}).out = (NumSetV.set s).text := by
+    simp [encNumSet, htext, Enc.write]
+  refine ⟨by simp [encNumSet, htext, Enc.write], ?_⟩
+  rw [hout]
+  exact expectNumSet_text s hparse hne c r hc none []
+
+/-- the SEARCHRES marker `$` -/
+theorem searchres_rt (rest : Wire.Bytes) :
+    (encNumSet .searchRes {}).err = false ∧
+    expectNumSet ⟨(encNumSet .searchRes {}).out ++ rest, none, []⟩ = (true, .searchRes, ⟨rest, none, []⟩) := by
+  refine ⟨by decide, ?_⟩
+  have : (encNumSet .searchRes {}).out = [36] := by decide
+  rw [this]
+  simp [expectNumSet, acceptByte]
+
 /-- an empty number set is refused -/
 theorem numset_refuse (e : Enc) : (encNumSet (.set []) e).err = true := by
   simp [encNumSet, NumSetV.text, NumSet.toChars, Enc.setErr]
+
+example : NumSetSpec.canonical [⟨1, 3⟩, ⟨5, 5⟩, ⟨9, 0⟩] = true ∧
+    (encNumSet (.set [⟨1, 3⟩, ⟨5, 5⟩, ⟨9, 0⟩]) {}).out = [49, 58, 51, 44, 53, 44, 57, 58, 42] := by
+  refine ⟨by decide, by decide +kernel⟩
+
+/-! ### nested lists -/
+
+/-- a value tree (strings, non-negative numbers, lists) whose nesting of non-empty lists stays below
+    the cap is never refused and is read back as itself, consuming exactly its bytes, in every mode -/
+theorem list_rt (cfg : Cfg) (v : Value) (hok : v.OK) (hdepth : v.depth < maxListDepth)
+    (fuel : Nat) (hfuel : v.fuel ≤ fuel) (c : Nat) (r : Wire.Bytes) (hc : isDigit c = false) :
+    (encValue cfg v {}).err = false ∧
+    ∃ l', readValue cfg.side.peer fuel 0 ⟨(encValue cfg v {}).out ++ c :: r, none, []⟩ =
+      (.ok v, ⟨c :: r, none, l'⟩) := by
+  obtain ⟨h1, h2⟩ := encValue_ok cfg v {} hok rfl
+  refine ⟨h1, ?_⟩
+  have : (encValue cfg v {}).out = valBytes cfg v := by simpa using h2
+  rw [this]
+  exact readValue_rt cfg v fuel 0 c r none [] hok hfuel (by omega) hc
+
+/-- at the cap or beyond, the reader stops with the depth error (never a wrong value) -/
+theorem list_cap (cfg : Cfg) (v : Value) (hok : v.OK) (hdepth : v.depth ≥ maxListDepth)
+    (fuel : Nat) (hfuel : v.fuel ≤ fuel) (c : Nat) (r : Wire.Bytes) (hc : isDigit c = false) :
+    ∃ s', readValue cfg.side.peer fuel 0 ⟨(encValue cfg v {}).out ++ c :: r, none, []⟩ =
+      (.error .depth, s') := by
+  obtain ⟨_, h2⟩ := encValue_ok cfg v {} hok rfl
+  have : (encValue cfg v {}).out = valBytes cfg v := by simpa using h2
+  rw [this]
+  exact readValue_capped cfg v fuel 0 c r none [] hok hfuel (by decide) (by omega) hc
+
+/-- a negative number anywhere in the tree makes the encoder refuse the whole value -/
+theorem list_refuse (cfg : Cfg) (v : Value) (e : Enc) (h : Value.representable v = false) :
+    (encValue cfg v e).err = true :=
+  encValue_refuse cfg v e h
+
+/-- an empty list does not count towards the depth: `(())` has depth 1 -/
+example : Value.depth (.list (.cons (.list .nil) .nil)) = 1 ∧
+    Value.depth (.list (.cons (.list (.cons (.num 7) .nil)) .nil)) = 2 := by decide
+
+example : (encValue ⟨.server, false, false, false⟩ (.list (.cons (.str [97]) (.cons (.num 5) (.cons (.list .nil) .nil)))) {}).out =
+    [40, 34, 97, 34, 32, 53, 32, 40, 41, 41] := by decide
+
+/-! ### the two repaired defects -/
 
 /-- `Number64` as shipped wrote "-5", which the peer's `ExpectNumber64` rejects -/
 theorem legacy_number64_counterexample :
